@@ -34,6 +34,7 @@ type wStep struct {
 	URL      string
 	Preset   int    // blob/stream: 1 = another Content-Type is already set when the helper is called; 2 = several values are set, the first equal to the given type
 	Format   string // string: called as String(code, Format) without values; Data holds what the format stands for
+	FailCap  bool   // capability steps: the connection's first answer is an error (passed through), the call is then repeated
 }
 
 func (s wStep) String() string {
@@ -84,7 +85,7 @@ func genWSteps(src sim.Source) []wStep {
 		case k < 13:
 			out = append(out, wStep{Kind: "flush"})
 		case k < 14:
-			out = append(out, wStep{Kind: sim.Pick(src, "cap", []string{"push", "rdeadline", "wdeadline", "fullduplex"})})
+			out = append(out, wStep{Kind: sim.Pick(src, "cap", []string{"push", "rdeadline", "wdeadline", "fullduplex"}), FailCap: src.Intn("failcap", 4) == 3})
 		case k < 15:
 			st := wStep{Kind: "string", Code: sim.Pick(src, "code", c14Codes[:5]), Data: data()}
 			if src.Intn("literalformat", 3) == 0 {
@@ -100,7 +101,7 @@ func genWSteps(src sim.Source) []wStep {
 		case k < 18:
 			out = append(out, wStep{Kind: "redirect", Code: sim.Pick(src, "rcode", []int{299, 300, 301, 302, 303, 304, 305, 306, 307, 308, 309, 310, 399, 200, 3000}), URL: "http://sim.invalid/next"})
 		case k < 19 && i == n-1:
-			out = append(out, wStep{Kind: "hijack"})
+			out = append(out, wStep{Kind: "hijack", FailCap: src.Intn("failcap", 3) == 2})
 		default:
 			out = append(out, wStep{Kind: "write", Data: data()})
 		}
@@ -231,19 +232,31 @@ func runWHistory(w *world.World, steps []wStep, caps world.Caps, reqCT string, c
 			case "push", "rdeadline", "wdeadline", "fullduplex", "hijack":
 				var err error
 				offered := caps.Hijacker
-				switch st.Kind {
-				case "push":
-					err = wr.Push("/x", nil)
-				case "rdeadline":
-					err = wr.SetReadDeadline(time.Time{})
-				case "wdeadline":
-					err = wr.SetWriteDeadline(time.Time{})
-				case "fullduplex":
-					err = wr.EnableFullDuplex()
-				case "hijack":
-					_, _, err = wr.Hijack()
+				call := func() error {
+					switch st.Kind {
+					case "push":
+						return wr.Push("/x", nil)
+					case "rdeadline":
+						return wr.SetReadDeadline(time.Time{})
+					case "wdeadline":
+						return wr.SetWriteDeadline(time.Time{})
+					case "fullduplex":
+						return wr.EnableFullDuplex()
+					}
+					_, _, e := wr.Hijack()
+					return e
 				}
-				if offered {
+				if st.FailCap && offered {
+					// the connection refuses once: its answer comes back as it is, and the next call is delegated again
+					conn.CapFail = 1
+					if e := call(); e != world.ErrCap || !hasEvent(conn, evBefore, st.Kind) {
+						fail = fmt.Sprintf("%s: the connection answered %v, the caller got %v (delegated=%v)", name, world.ErrCap, e, hasEvent(conn, evBefore, st.Kind))
+					}
+					evBefore = len(conn.Events)
+				}
+				err = call()
+				if fail != "" {
+				} else if offered {
 					if err != nil || !hasEvent(conn, evBefore, st.Kind) {
 						fail = fmt.Sprintf("%s: capability offered by the connection, got error %v, delegated=%v", name, err, hasEvent(conn, evBefore, st.Kind))
 					}
